@@ -3314,3 +3314,47 @@ Proof.
     intros r H Hs. destruct (G cs [] r H) as (m' & Es & Hw). unfold was_sent_path in Hs. rewrite Es in Hs. cbn [em_sent_path_ids] in Hs.
     apply (Hw d pid None); [intro F; contradiction | exact Hs].
 Qed.
+
+(* ================================================================ the caller (handle_prefix_update) and PendingTx *)
+Lemma run_updates_lift : forall x pol emax raddr cid cs e,
+  run_updates true x (lift_policy pol) emax raddr cid cs e = run_changes x pol emax raddr cid cs e.
+Proof.
+  intros x pol emax raddr cid. induction cs as [|c t IH]; intro e; [reflexivity|].
+  cbn [run_updates run_changes]. rewrite C09_process_change_r_lift.
+  destruct (process_change x pol emax raddr cid c e) as [r1|]; [|reflexivity]. cbn [rbind]. rewrite IH. reflexivity.
+Qed.
+
+Lemma run_updates_no_family : forall x polr emax raddr cid cs e,
+  run_updates false x polr emax raddr cid cs e = Ok ([], e).
+Proof.
+  intros x polr emax raddr cid. induction cs as [|c t IH]; intro e; [reflexivity|].
+  cbn [run_updates rbind snd fst]. rewrite IH. reflexivity.
+Qed.
+
+(* what PendingTx hands over as an announcement was handed to it by a Reach *)
+Lemma pending_reach_is_advertised : forall ap ops d key st nh a,
+  pending_after ap ops d key st = PReach nh a ->
+  st = PReach nh a \/ exists pid s, In (Reach d pid nh a s) ops.
+Proof.
+  intros ap. induction ops as [|op ops IH]; intros d key st nh a H; [left; exact H|].
+  destruct op as [d' p' | d' p' nh' a' s']; cbn [pending_after] in H.
+  - destruct (IH _ _ _ _ _ H) as [E | (pid & s & Hin)]; [|right; exists pid, s; right; exact Hin].
+    destruct ((d' =? d) && ((if ap then p' else 0) =? key)); [discriminate | left; exact E].
+  - destruct (IH _ _ _ _ _ H) as [E | (pid & s & Hin)]; [|right; exists pid, s; right; exact Hin].
+    destruct ((d' =? d) && ((if ap then p' else 0) =? key)) eqn:Ek; [|left; exact E].
+    inversion E; subst. apply andb_true_iff in Ek. destruct Ek as [Ed _]. apply N.eqb_eq in Ed. subst d'.
+    right. exists p', s'. left. reflexivity.
+Qed.
+
+(* every announcement a neighbour's task queues for the wire, along any run of
+   handle_prefix_update, is an advertisement in the sense of the theorems above *)
+Theorem C09_queued_announcements_are_advertised : forall x pol emax raddr cid cs e r ap d key nh a,
+  run_updates true x (lift_policy pol) emax raddr cid cs e = Ok r ->
+  pending_after ap (fst r) d key PNothing = PReach nh a ->
+  exists c e' pid s, In c cs /\ advertised x pol emax raddr cid c e' d pid nh a s.
+Proof.
+  intros x pol emax raddr cid cs e r ap d key nh a H Hp. rewrite run_updates_lift in H.
+  destruct (pending_reach_is_advertised _ _ _ _ _ _ _ Hp) as [E | (pid & s & Hin)]; [discriminate|].
+  destruct (run_changes_reach _ _ _ _ _ _ _ _ _ _ _ _ _ H Hin) as (c & e' & Hc & Ha).
+  exists c, e', pid, s. auto.
+Qed.
